@@ -152,7 +152,7 @@ _ADD = {
     "C01": " The seek dominates the write and the write dominates the record on every path (no conditional seek / skipped write); the held-range list is never reset or replaced (C09-G8).",
     "C04": " The held-range list is only changed by recording a written segment (C09-G8).",
     "C05": " Items are self-delimiting (L2): a decoder that consults the end of its input (short read, read_to_end) is run only in tail position of its reader. No decoder passes a received name or text through a lossy or normalising conversion (C06-P4).",
-    "C06": " No decoder uses a lossy or normalising text or path conversion (C06-P4).",
+    "C06": " No decoder uses a lossy or normalising text or path conversion (C06-P4); no decoder decides a value from a short read and end-of-input-delimited decoders run only in tail position (C05-L2) - two necessary conditions of 'whatever is accepted is canonical'.",
     "C07": " Queued retransmission requests are de-duplicated on the whole request (S6); in the SendData phase the EOF is prepared only under cursor == file length (S7); prepare_eof always stores a fresh EOF built from the current condition (C10-K5).",
     "C08": " max_nak_num is (budget - fixed part of the NAK's encoded_len) / encoded_len of one request (N7); a reported gap never extends beyond the window (C09-G7).",
     "C09": " (G6) the coalescing helper is applied at the index whose end was just extended; (G7) a gap ending at a held range's start is pushed only under that start < window end; (G8) the receive transaction's list is mutated only by Segments::merge in store_file_data.",
